@@ -43,6 +43,18 @@ Theorem C13_validate_opt_none : forall cur e ps,
     end.
 Proof. exact validate_opt_none. Qed.
 
+(* one Checkers object, a Reader whose answer changes between calls: every answer of a history is
+   [validate] under the Reader state current at that call (the Checker keeps nothing) *)
+Theorem C13_history_pointwise : forall h st i,
+  nth_error (run_history st h) i =
+  option_map (fun x => validate (r_epoch (fst (fst x))) (r_vals (fst (fst x))) (snd (fst x)) (snd x))
+             (nth_error h i).
+Proof. exact history_pointwise. Qed.
+Theorem C13_history_late_event : forall st rs rs' e ps,
+  e_epoch e = r_epoch rs -> r_epoch rs' <> r_epoch rs -> basic_validate e = Ok ->
+  nth_error (run_history st [(rs, e, ps); (rs', e, ps)]) 1 = Some (Err NotRelevant).
+Proof. exact history_late_event. Qed.
+
 (* first-error: error k is returned exactly when clause k is violated and all earlier clauses hold *)
 Theorem C13_validate_err_iff_blames : forall cur vals e ps k,
   typed e ps -> parents_of e ps ->
@@ -117,6 +129,8 @@ Print Assumptions C13_validate_ok_iff_general.
 Print Assumptions C13_answer_ok_gen_unique.
 Print Assumptions C13_validate_opt_some.
 Print Assumptions C13_validate_opt_none.
+Print Assumptions C13_history_pointwise.
+Print Assumptions C13_history_late_event.
 Print Assumptions C13_validate_err_iff_blames.
 Print Assumptions C13_answer_ok_unique.
 Print Assumptions C13_basic_ok_iff.
